@@ -85,8 +85,24 @@ def _lst(seed, salt, k, n=8, t0=0, shift=0.0):
     return [_da(seed, salt + 7 * i, n=n, t0=t0, shift=shift + 10.0 * i, fac=1.0 + i, name="v%d" % i) for i in range(k)]
 
 
+def _pair2s(seed, salt, n, t0=0, shift=0.0, group="A"):
+    a = _two(_da(seed, salt, n=n, t0=t0, shift=shift, name="v0"))
+    b = _two(_da(seed, salt + 7, n=n, t0=t0, shift=shift + 10.0, fac=2.0, name="v1"))
+    if group == "A":
+        return [a, b.isel(run=slice(None, None, -1))]  # the same labelled samples, stored in another element order
+    return [a, b.assign_coords(run=np.asarray(b.run.values) + 1)]  # run is a FEATURE dim here: runs {0,1} and {1,2}
+
+
 def datasets(seed, cross=False, two=False, lst=False):
     """name -> object. Groups: A = {D1, D2, DnewA} share a structure; B = {D3, DnewB}."""
+    if lst == "2s":
+        return {
+            "D1": _pair2s(seed, 1, 16),
+            "D2": _pair2s(seed, 2, 16, shift=5.0),
+            "DnewA": _pair2s(seed, 3, 8, t0=100),
+            "D3": _pair2s(seed, 4, 14, group="B"),
+            "DnewB": _pair2s(seed, 5, 6, t0=200, group="B"),
+        }
     if lst:
         return {
             "D1": _lst(seed, 1, 12),
@@ -134,9 +150,11 @@ YOF = {"D1": "E1", "D2": "E2", "D3": "E3", "DnewA": "EnewA", "DnewB": "EnewB"}
 
 # ----------------------------------------------------------------------------- subjects
 
-SUBJECTS = ["EOF", "EOF2s", "EOFlist", "SparsePCA", "POP", "OPA", "CPCCA", "MCA", "EOF+Rotator", "MCA+Rotator", "EOF+Bootstrapper"]
+SUBJECTS = ["EOF", "EOF2s", "EOFlist", "EOFlist2s", "SparsePCA", "POP", "OPA", "CPCCA", "MCA", "EOF+Rotator", "MCA+Rotator", "EOF+Bootstrapper"]
 TWO = {"EOF2s"}  # subjects whose data sets have two sample dimensions (time, run)
-LIST = {"EOFlist"}  # subjects fitted on lists (12 items in group A, 2 items in group B)
+LIST = {"EOFlist", "EOFlist2s"}
+LIST2S = {"EOFlist2s"}  # two-item lists; group A: two sample dims (time, run), the items store the runs in different element order;
+#                          group B: ONE sample dim (time) - 'run' is a feature dim there and the two items cover different runs  # subjects fitted on lists (12 items in group A, 2 items in group B)
 CROSS = {"CPCCA", "MCA", "MCA+Rotator"}
 
 
@@ -144,7 +162,7 @@ def new_system(subject):
     import xeofs as xe
 
     s = {}
-    if subject in ("EOF", "EOF2s", "EOFlist", "EOF+Rotator", "EOF+Bootstrapper"):
+    if subject in ("EOF", "EOF2s", "EOFlist", "EOFlist2s", "EOF+Rotator", "EOF+Bootstrapper"):
         s["model"] = xe.single.EOF(n_modes=3, random_state=3)
     elif subject == "SparsePCA":
         # a genuinely lossy sketch (k + oversample < rank): the result depends on the random draws, i.e. on the seed
@@ -199,7 +217,7 @@ def apply_op(subject, sys_, op, dsets, absstate):
     last = absstate.get("last")
     if op.startswith("fit:"):
         d = op[4:]
-        dim = ("time", "run") if subject in TWO else "time"
+        dim = ("time", "run") if (subject in TWO or (subject in LIST2S and GROUP[d] == "A")) else "time"
         if cross:
             m.fit(dsets[d], dsets[YOF[d]], dim=dim)
         else:
@@ -261,6 +279,7 @@ def _metrics(subject, m):
         "EOF": ["explained_variance", "explained_variance_ratio", "singular_values"],
         "EOF2s": ["explained_variance", "explained_variance_ratio", "singular_values"],
         "EOFlist": ["explained_variance", "explained_variance_ratio", "singular_values"],
+        "EOFlist2s": ["explained_variance", "explained_variance_ratio", "singular_values"],
         "SparsePCA": ["explained_variance", "explained_variance_ratio"],
         "POP": ["eigenvalues", "periods", "damping_times"],
         "OPA": ["decorrelation_time", "filter_patterns"],
@@ -313,7 +332,7 @@ def aux_answers(obj):
 @functools.lru_cache(maxsize=None)
 def reference(subject, last, seed, aux):
     """Answers of a fresh system fitted exactly once on `last` (then, optionally, aux fitted once)."""
-    dsets = datasets(seed, subject in CROSS, subject in TWO, subject in LIST)
+    dsets = datasets(seed, subject in CROSS, subject in TWO, "2s" if subject in LIST2S else subject in LIST)
     s = new_system(subject)
     st = {}
     with warnings.catch_warnings():
@@ -385,8 +404,8 @@ _STATS = {}
 
 def run_case(case, seed):
     subject, history = case["subject"], case["history"]
-    dsets = datasets(seed, subject in CROSS, subject in TWO, subject in LIST)
-    pristine = datasets(seed, subject in CROSS, subject in TWO, subject in LIST)
+    dsets = datasets(seed, subject in CROSS, subject in TWO, "2s" if subject in LIST2S else subject in LIST)
+    pristine = datasets(seed, subject in CROSS, subject in TWO, "2s" if subject in LIST2S else subject in LIST)
     s = new_system(subject)
     st = {}
     V = []
